@@ -95,7 +95,7 @@ def apply(obj, ev: dict):
         return obj.contract(a["a"], a["b"])
     if op == "collapse":
         d = np.array(a["dims"], dtype=int)
-        if isinstance(obj, ttb.sptensor):
+        if isinstance(obj, ttb.sptensor) and a["red"] == "sum":
             return obj.collapse(d)        # default reducer (sum)
         return obj.collapse(d, {"sum": np.sum, "max": np.max, "min": np.min}[a["red"]])
     if op == "scale":
@@ -241,8 +241,8 @@ def main(tier: str) -> int:
     out.exhaustive = True
     out.trusted = ["alpha/gamma (harness/bind.py), apply() in harness/c02.py", "TLC"]
     out.assumptions = ["multilinearity + small scope (DESIGN 2.5): orders <= 4, sizes <= 3",
-                       "sparse collapse is exercised with the sum reducer only (other reducers act on stored "
-                       "values by design)", "norm is bound through norm()^2 (integer) with relative tolerance 1e-6"]
+                       "sparse collapse with max / min is exercised on non-negative / non-positive data only (other "
+                       "reducers act on the stored values of a slice by design)", "norm is bound through norm()^2 (integer) with relative tolerance 1e-6"]
     return core.finish(out)
 
 
